@@ -222,6 +222,8 @@ theorem C16_cache_coherent_step (w : World ℝ) (s : St ℝ) (o : Op ℝ) (h : C
   | samples => exact he
   | recalc => exact coherent_clear w s
   | setGlobal g => exact h
+  | display b r => exact he
+  | bystander => exact h
 
 /-- **C16 (cache coherence, all histories).** From a fresh quantity, after ANY sequence of
     strategy / confidence / range / sample-size changes, custom values, reads and
@@ -328,6 +330,8 @@ theorem C16_sim_changes_only (w : World ℝ) (s : St ℝ) (o : Op ℝ) (id : Nat
   | samples => simp [keepsSim, step, he, hs]
   | recalc => simp [keepsSim, step, clear]
   | setGlobal g => simp [keepsSim, step, hs]
+  | display b r => simp [keepsSim, step, he, hs]
+  | bystander => simp [keepsSim, step, hs]
 
 /-- **C16 (a rejected request changes nothing).** When the library raises `ValueError` (negative
     sample size, confidence outside [0, 1], inverted range, negative custom uncertainty, mode
@@ -381,6 +385,8 @@ theorem C16_rejected_unchanged (w : World ℝ) (s : St ℝ) (o : Op ℝ)
   | samples => simp [step] at hr
   | recalc => simp [step] at hr
   | setGlobal g => simp [step] at hr
+  | display b r => simp [step] at hr
+  | bystander => simp [step] at hr
 
 /-- a dropped simulation is replaced by one with a NEW id -/
 theorem C16_new_sim_is_new (s : St ℝ) (hs : s.sim = none) :
@@ -423,5 +429,65 @@ theorem C16_custom (w : World ℝ) (s : St ℝ) (v e : ℝ) (he : 0 ≤ e) :
   · intro c
     simp only [setConf', ensure]
     split <;> simp [evaluate, ensure, evalCore]
+
+/-! ## looking is not touching -/
+
+theorem ensure_idem (s : St ℝ) : ensure (ensure s) = ensure s := by
+  obtain ⟨id, hid⟩ := Option.isSome_iff_exists.mp (ensure_sim_isSome s)
+  generalize ensure s = t at hid
+  simp [ensure, hid]
+
+/-- every operation starts by making sure a simulation exists (`d.mc` / `evaluate`), except the
+    two that drop it or do not touch the quantity: on a state that already has one, `ensure` first
+    makes no difference -/
+theorem step_ensure (w : World ℝ) (s : St ℝ) (o : Op ℝ)
+    (ho : o ≠ .recalc ∧ o ≠ .bystander ∧ ∀ g, o ≠ .setGlobal g) :
+    step w (ensure s) o = step w s o := by
+  cases o with
+  | recalc => exact absurd rfl ho.1
+  | bystander => exact absurd rfl ho.2.1
+  | setGlobal g => exact absurd rfl (ho.2.2 g)
+  | _ => simp [step, evaluate, ensure_idem]
+
+/-- **C16 (a picture is not a result).** Displaying the histogram — with ANY number of bins and
+    ANY display window, under any strategy, whether or not a result is buffered at that moment —
+    stores nothing: the state afterwards is the state the `d.mc` access alone leaves (`ensure`), the
+    simulation is the one `samples` returns, and the next read returns exactly what it would have
+    returned without the display: `readSpec` of the settings and the retrievable samples (100 bins
+    over all samples for the mode strategy — never the displayed histogram). -/
+theorem C16_display_invisible (w : World ℝ) (s : St ℝ) (bins : Nat) (window : Option (ℝ × ℝ)) :
+    (step w s (.display bins window)).1 = ensure s ∧
+    (step w s (.display bins window)).2 = .ok ∧
+    step w (step w s (.display bins window)).1 .read = step w s .read ∧
+    (∀ o : Op ℝ, (o ≠ .recalc ∧ o ≠ .bystander ∧ ∀ g, o ≠ .setGlobal g) →
+      step w (step w s (.display bins window)).1 o = step w s o) := by
+  refine ⟨rfl, rfl, ?_, ?_⟩
+  · simp [step, evaluate, ensure_idem]
+  · intro o ho
+    exact step_ensure w s o ho
+
+/-- **C16 (read after a history with pictures).** After ANY history — pictures with any bin count
+    and window included — followed by one more picture, a read returns `readSpec` of the settings
+    and of the sample set the user can retrieve at that moment. -/
+theorem C16_read_after_display (w : World ℝ) (g : Nat) (ops : List (Op ℝ)) (bins : Nat)
+    (window : Option (ℝ × ℝ)) :
+    let s := run w (MCS.init g) ops
+    ∃ id, (ensure s).sim = some id ∧
+      (step w (step w s (.display bins window)).1 Op.read).2 =
+        Out.pair (readSpec w (ensure s) id).1 (readSpec w (ensure s) id).2 := by
+  intro s
+  obtain ⟨id, hid, _, hr⟩ := C16_read_after_history w g ops
+  refine ⟨id, hid, ?_⟩
+  rw [(C16_display_invisible w s bins window).2.2.1]
+  exact hr
+
+/-- **C16 (other objects).** What is done to other objects (a figure drawn, a fit, another
+    quantity configured or simulated, a function run under a temporary sample size) leaves this
+    quantity's settings, simulation, buffered results AND the configured global sample size as
+    they were: the next simulation still has the per-quantity size if set, else that global size. -/
+theorem C16_bystander_invisible (w : World ℝ) (s : St ℝ) :
+    (step w s .bystander).1 = s ∧ effSize (step w s .bystander).1 = effSize s ∧
+    ∀ o : Op ℝ, step w (step w s .bystander).1 o = step w s o := by
+  refine ⟨rfl, rfl, fun o => rfl⟩
 
 end QExPy
